@@ -73,6 +73,34 @@ Theorem C33_restart_empties :
 Proof. exact vrf_restart_empties. Qed.
 Print Assumptions C33_restart_empties.
 
+(* The degree premise, explicitly: seed uniqueness needs every dealer polynomial of the DKG to
+   have at most t coefficients (degree < t); with one polynomial of t+1 coefficients two t-subsets
+   of verified shares interpolate different values.  The chain guarantees it at one place:
+   minersc contributeMpk records a public polynomial only if it has exactly t coefficients
+   ([va_mpk_accept], tied to the real contract by the correspondence check), so for the polynomials
+   the contract accepted the premise of the theorems above holds and the seeds agree. *)
+Theorem C33_accepted_mpk_has_t_coefficients :
+  forall (A : Type) (t : nat) (member already : bool) (cs : seq A),
+    va_mpk_accept t member already (size cs) -> size cs = t.
+Proof. exact vrf_mpk_accept_size. Qed.
+Print Assumptions C33_accepted_mpk_has_t_coefficients.
+
+Theorem C33_seed_agreement_for_accepted_mpks :
+  forall (F : fieldType) (G1 G2 GT : lmodType F) (g2 : G2) (M : Type) (H : M -> G1)
+         (e : G1 -> G2 -> GT) (Seed : Type) (seed_of : G1 -> Seed),
+    (forall a x y, e (a *: x) y = a *: e x y) -> (forall a x y, e x (a *: y) = a *: e x y) ->
+    (forall x y, e x g2 = e y g2 -> x = y) ->
+  forall (css : seq (seq F)) (members : seq F) (m : M) (t : nat),
+    (0 < t)%N -> 0 \notin members ->
+    all (fun cs => va_mpk_accept t true false (size cs)) css ->
+  forall (evs1 evs2 : seq (vrf_ev G1)) (s1 s2 : Seed),
+    let mpks := [seq dkg_mpk g2 cs | cs <- css] in
+    vrf_seed seed_of t (vrf_run g2 H e t mpks members m [::] evs1).1 = Some s1 ->
+    vrf_seed seed_of t (vrf_run g2 H e t mpks members m [::] evs2).1 = Some s2 ->
+    s1 = s2 /\ s1 = seed_of (dkg_sign H (dkg_gsk css) m).
+Proof. exact vrf_seed_agreement_accepted. Qed.
+Print Assumptions C33_seed_agreement_for_accepted_mpks.
+
 (* The same for any two sets of at least t verified shares of distinct miners. *)
 Theorem C33_seed_of_any_verified_set :
   forall (F : fieldType) (G1 G2 GT : lmodType F) (g2 : G2) (M : Type) (H : M -> G1)
